@@ -8,6 +8,7 @@ import (
 	"errors"
 	"net"
 	"sync"
+	"time"
 
 	reuse "github.com/libp2p/go-reuseport"
 
@@ -31,6 +32,21 @@ type PFCPNode struct {
 	upf *upf
 	// metrics for PFCP messages and sessions
 	metrics metrics.InstrumentPFCP
+}
+
+// nodeStopTimeout bounds how long a stopping node waits for its connections.
+const nodeStopTimeout = 10 * time.Second
+
+// connCount returns the number of connections the node knows.
+func (node *PFCPNode) connCount() int {
+	n := 0
+
+	node.pConns.Range(func(_, _ interface{}) bool {
+		n++
+		return true
+	})
+
+	return n
 }
 
 // NewPFCPNode create a new PFCPNode listening on local address.
@@ -137,33 +153,23 @@ func (node *PFCPNode) Serve() {
 				logger.PfcpLog.Errorln("error closing PFCPNode conn", err)
 			}
 
-			// Clear out the remaining pconn completions
-		clearLoop:
-			for {
+			// Every connection shuts itself down when the context is cancelled (removing its
+			// sessions from the datapath) and then reports on pConnDone. Wait for all of them,
+			// for a bounded time, before the datapath connection is closed. The channel is
+			// never closed: a connection may still report after we stopped listening.
+			deadline := time.After(nodeStopTimeout)
+		waitLoop:
+			for node.connCount() > 0 {
 				select {
-				case rAddr, ok := <-node.pConnDone:
-					{
-						if !ok {
-							// channel is closed, break
-							break clearLoop
-						}
-						node.pConns.Delete(rAddr)
-						logger.PfcpLog.Infoln("removed connection to", rAddr)
-					}
-				default:
-					// nothing to read from channel
-					break clearLoop
-				}
-			}
-
-			if len(node.pConnDone) > 0 {
-				for rAddr := range node.pConnDone {
+				case rAddr := <-node.pConnDone:
 					node.pConns.Delete(rAddr)
 					logger.PfcpLog.Infoln("removed connection to", rAddr)
+				case <-deadline:
+					logger.PfcpLog.Warnln("timed out waiting for PFCP connections to shut down")
+					break waitLoop
 				}
 			}
 
-			close(node.pConnDone)
 			logger.PfcpLog.Infoln("done waiting for PFCPConn completions")
 
 			node.upf.Exit()
